@@ -30,7 +30,7 @@ func checkC02(c *Ctx) {
 		"(K1) key provenance: Decrypt hands a stream to its caller (or starts the segment phase) only on paths on which UnwrapKeyFn — found through the exported callback type — returned no error, and the key bytes handed to the key import on such a path are the ones it returned: a placeholder substituted after a failed unwrap or for a key of the wrong length is a public constant, so such a path must end in an error whatever the header MAC says (decided with the path explorer from Decrypt's entry, through helpers, flags, (key, ok) results and early returns); " +
 		"(P1) within the segment loop a buffer taken from a sync.Pool is given back at most once on every path and not before a later read / processor call (a twice-released buffer is shared by two later streams and the segment being written to the pipe can be overwritten); " +
 		"(T7) Decrypt returns the read half of the io.Pipe whose write half reaches the segment loop, and the processor the loop gets on the way from Decrypt authenticates (calls AEAD.Open, itself or through same-package functions). " +
-		"NOT decided: that AEAD rejects a given mutation (trusted primitive), that the bytes released are a prefix of the plaintext as a runtime fact, byte-exact round trip (C01), anything about the header MAC (NOTE only: every payload byte is authenticated by the AEAD under a key derived from the file key and nonce prefix, so the statement holds with or without the MAC), constant-time behaviour, the number of bytes written, the Read-chunking contract of the fill loop (C01-R1). Engine and bounds: the T1 rules (dominance and may/must flows over the SSA graph) follow authentication into same-package helpers, callbacks handed to helpers and local closures (roles reached through parameters and captured variables; at most three levels; an outcome may be an error or a (value, ok) flag); T3, H1/H2 and P1 are may-flows over path states with summaries of read helpers, push-back helpers, pipe-closing helpers, func(error) bool predicates and error-wrapping helpers (summaries nest at most two to three levels), and method values of the pipe's Close/CloseWithError or of the source's Read count as those calls; T4, T5 and K1 use a path explorer that works instruction by instruction: it tracks the memory the function owns (locals, fields of local structs by value or pointer incl. nested sub-structs, fields behind its pointer receiver), keeps symbolic offsets value = base + constant (within ±8), value-numbers comparisons, evaluates comparisons of constants and comparisons with nil (errors, and values that are non-nil by construction such as a freshly made slice, so that a nil-or-set variable works as a flag), and steps into loop-free same-package helpers of at most 40 blocks (two levels deep, four for K1; 60000 steps) so that the flags / small enums / tuples a phase helper returns stay correlated with its caller's branches. Calls through an unexported interface seam are followed to the implementations converted to the interface on the way from Decrypt; function values are resolved through parameters, captures, fields and literal tables. UNDECIDED (not followed): an error variable or the pipe itself captured by a closure inside the segment loop (e.g. one deferred closure that closes the pipe according to a captured error), errors kept in struct fields, a segment processor with a different signature, a read helper that reports its error other than as its last result, a helper that closes the pipe on some paths only, a nonce assembled by loops over non-constant indices or inside a closure from captured number/flag, phase helpers with loops whose flags the segment loop branches on, and — for K1 — an unwrap reached through a table of steps or whose outcome is kept in a struct that escapes; a K1 path through an undecided branch on state that was derived from the unwrap's outcome (a flag from a helper that is not entered, a merged variable) is reported as UNDECIDED, only branches on what UnwrapKeyFn itself returned are free. One violation of T5-first on the current tree is recorded as a known finding (a bare header decrypts to an empty stream with a clean EOF: the published format encodes the empty message that way)."
+		"NOT decided: that AEAD rejects a given mutation (trusted primitive), that the bytes released are a prefix of the plaintext as a runtime fact, byte-exact round trip (C01), anything about the header MAC (NOTE only: every payload byte is authenticated by the AEAD under a key derived from the file key and nonce prefix, so the statement holds with or without the MAC), constant-time behaviour, the number of bytes written, the Read-chunking contract of the fill loop (C01-R1). Engine and bounds: the T1 rules (dominance and may/must flows over the SSA graph) follow authentication into same-package helpers, callbacks handed to helpers and local closures (roles reached through parameters and captured variables; at most three levels; an outcome may be an error or a (value, ok) flag); T3, H1/H2 and P1 are may-flows over path states with summaries of read helpers, push-back helpers, pipe-closing helpers, func(error) bool predicates, error-filter helpers (func(…, err, …) error whose nil result implies that err was nil or io.EOF) and error-wrapping helpers (summaries nest at most two to three levels), and method values of the pipe's Close/CloseWithError or of the source's Read count as those calls; T4, T5 and K1 use a path explorer that works instruction by instruction: it tracks the memory the function owns (locals, fields of local structs by value or pointer incl. nested sub-structs, fields behind its pointer receiver), keeps symbolic offsets value = base + constant (within ±8), value-numbers comparisons, evaluates comparisons of constants and comparisons with nil (errors, and values that are non-nil by construction such as a freshly made slice, so that a nil-or-set variable works as a flag), and steps into loop-free same-package helpers of at most 40 blocks (two levels deep, four for K1; 60000 steps) so that the flags / small enums / tuples a phase helper returns stay correlated with its caller's branches. Calls through an unexported interface seam are followed to the implementations converted to the interface on the way from Decrypt; function values are resolved through parameters, captures, fields and literal tables. UNDECIDED (not followed): an error variable or the pipe itself captured by a closure inside the segment loop (e.g. one deferred closure that closes the pipe according to a captured error), errors kept in struct fields, a segment processor with a different signature, a read helper that reports its error other than as its last result, a read error handed to a same-package function that is neither such a filter, a predicate nor a wrapper (a finding about that error is then UNDECIDED), a helper that closes the pipe on some paths only, a nonce assembled by loops over non-constant indices or inside a closure from captured number/flag, phase helpers with loops whose flags the segment loop branches on, and — for K1 — an unwrap reached through a table of steps or whose outcome is kept in a struct that escapes; a K1 path through an undecided branch on state that was derived from the unwrap's outcome (a flag from a helper that is not entered, a merged variable) is reported as UNDECIDED, only branches on what UnwrapKeyFn itself returned are free. One violation of T5-first on the current tree is recorded as a known finding (a bare header decrypts to an empty stream with a clean EOF: the published format encodes the empty message that way)."
 	r.Assumptions = append(r.Assumptions,
 		"cipher.AEAD.Open returns a non-nil error for any ciphertext/nonce pair not produced by Seal under the same key (trusted primitive)",
 		"package-level sentinel errors (ErrDecryptionFailed, io.ErrUnexpectedEOF, ...) are non-nil and not reassigned; errors.New / fmt.Errorf and same-package helpers all of whose returns are such values return non-nil errors",
@@ -1592,7 +1592,18 @@ func c02ErrorSurfaces(r *Report, L *c02Loop) {
 		}
 		return st
 	}
+	// errors handed to an error-filter helper (err = keepFatal(err)): a nil result means nil-or-EOF for a read error;
+	// a read error handed to a same-package function that cannot be summarised makes a finding about it undecided
+	filteredRead, readEscapes := c02FilteredErrors(p, L.fn, func(v ssa.Value) bool { return c02CarriesAny(v, L.readErrs) })
 	ff.EdgeTransfer = func(from, to *ssa.BasicBlock, st uint64) uint64 {
+		if v, isNil, ok := c02NilTest(from, to); ok && isNil && len(filteredRead) > 0 && c02CarriesAny(v, filteredRead) && !c02CarriesAny(v, L.readErrs) {
+			return mapStates(st, func(s int) int {
+				if s&badsent != 0 {
+					return s
+				}
+				return s &^ rdp
+			})
+		}
 		if v, isNil, ok := c02NilTest(from, to); ok && isNil {
 			clr := 0
 			if c02CarriesAny(v, L.readErrs) {
@@ -1688,6 +1699,10 @@ func c02ErrorSurfaces(r *Report, L *c02Loop) {
 					maybe = true
 				}
 			}
+		}
+		if bad != "" && readEscapes != "" && strings.Contains(bad, "source reader") {
+			r.Undecide("%s: the source error is handed to %s, whose treatment of it cannot be summarised; whether the close at %s can be reached with that error pending cannot be established", L.name, readEscapes, atPos)
+			return
 		}
 		if bad == "" && maybe {
 			r.Undecide("%s: the error handed to the close at %s is neither visibly non-nil nor the pending error itself; cannot classify the close", L.name, atPos)
